@@ -15,7 +15,7 @@ import z3
 
 from pyvc import ty as T
 from pyvc.api import BOOL, CLASSES, CONTRACTS, INT, REAL, STR, Const, Dict, List, Loop, Opt, Ref, Runtime, Set, Tuple, cls, contract, lemma, specfn, trusted
-from pyvc.core import PYOBJ, Unsupported, Val, fresh, lift
+from pyvc.core import PYOBJ, Unsupported, Val, fresh, fresh_name, lift
 from pyvc.symex import FuncRef
 
 from . import c01, c02, rtlib  # noqa: F401
@@ -272,7 +272,7 @@ def slant_k(angle):
 
 
 cls("C15_Anchor", fields={"name": STR, "x": REAL, "y": REAL}, notes="anchor object")
-cls("C15_Glyph", fields={"name": STR, "width": REAL, "height": REAL, "anchors": List(Ref("C15_Anchor")), "components": List(Ref("C01_Component")), "ncontours": INT},
+cls("C15_Glyph", fields={"name": STR, "width": REAL, "height": REAL, "anchors": List(Ref("C15_Anchor")), "components": List(Ref("C15_AComponent")), "ncontours": INT},
     length=lambda ex, st, v: ex.read_field(st, v, "ncontours"), notes="glyph: name, advance, anchors, components, len() = number of contours")
 cls("C15_GlyphSet", fields={"glyphs": Dict(STR, Ref("C15_Glyph"))},
     getitem=lambda ex, st, self, idx, node: ex.getitem(ex.read_field(st, self, "glyphs"), idx, st, node),
@@ -520,10 +520,27 @@ contract(
     modifies=["anchor_data"],
     requires=["all(c.baseGlyph in glyphSet.glyphs for c in components)"],
     globals={"expected_anchor_data": _expected_anchor_data},
-    ensures={"keeps-existing-names": "True"},
+    ensures={
+        # no name is dropped, and every NEW name is anchor_name itself or an extension of it (anchor_name + "_" + number)
+        "keeps-existing-names": "all(k in anchor_data for k in old(anchor_data))",
+        "new-names-extend-the-anchor-name": "all(k in old(anchor_data) or k.startswith(anchor_name) for k in anchor_data)",
+    },
     bounded_ensures={"exact-result": "dict(anchor_data) == expected_anchor_data(old(dict(anchor_data)), glyphSet, components, anchor_name)"},
     canaries={"never-adds": "all(k in old(anchor_data) for k in anchor_data)"},
     locals={"anchors": List(Tuple(Ref("C15_Anchor"), Ref("C15_AComponent")))},
+    ghost_vars={"AD0": (_AD, "anchor_data")},
+    merge_branches=False,  # several / one / no base anchor of that name: three separate paths
+    loops={
+        "for component in components": Loop(index="ci", invariants={"found-have-the-name": "all(anchors[k][0].name == anchor_name for k in range(len(anchors)))"}),
+        "for anchor in glyphSet[component.baseGlyph].anchors": Loop(invariants={"found-have-the-name": "all(anchors[k][0].name == anchor_name for k in range(len(anchors)))"}),
+        "for (i, (anchor, component)) in enumerate(anchors)": Loop(
+            index="ei",
+            invariants={
+                "kept": "all(k in anchor_data for k in AD0)",
+                "new-extend": "all(k in AD0 or k.startswith(anchor_name) for k in anchor_data)",
+            },
+        ),
+    },
 )
 
 
@@ -823,4 +840,121 @@ contract(
         ),
     },
     locals={"modified": Set(STR)},
+)
+
+# =====================================================================================================
+# propagateAnchors._propagate_glyph_anchors (recursive; shared `processed` / `modified` sets).  Stated for the arbitrary anchor name `probe`
+# (see _ProbeName) and proved for all inputs:
+#   * NEVER OVERRIDES: an anchor appended to the composite never carries the name of an anchor the composite already had;
+#   * ONLY APPENDS: the composite's existing anchors stay where they are (same objects, same positions in the list);
+#   * a glyph that is already in `processed` is left completely alone (no anchor appended anywhere, `modified` unchanged), every glyph the
+#     call works on ends up in `processed`, and `processed` / `modified` only grow;
+#   * glyphs that were already processed are not touched by the recursion into the bases.
+# (Idempotence of the FILTER — a second run with a fresh `processed` adds nothing — is a two-run statement: bounded observer.)
+
+contract(
+    "ufo2ft.filters.propagateAnchors:_is_ligature_mark",
+    props=["C15"],
+    params={"glyph": Ref("C15_Glyph")},
+    returns=BOOL,
+    ensures={"def": "result == (not glyph.name.startswith('_') and '_' in glyph.name)"},
+    canaries={"always": "result"},
+)
+
+
+def _min_member(ex, st, args, kwargs, node):
+    """builtins.min(<non-empty list>, key=...): SOME element of the list (which one is decided by the key — not needed here); ValueError
+    for an empty list  [python builtin semantics, TRUSTED]"""
+    from pyvc import models
+
+    (v,) = [models.materialize(ex, a) for a in args]
+    if not isinstance(v.ty, T.List) or set(kwargs) - {"key"}:
+        raise Unsupported("min(): only min(<list>, key=...) is modelled here", node)
+    s = lift(v)
+    ex.safety(st, z3.Length(s) > 0, "ValueError", node)
+    p = z3.Int(fresh_name("minpos"))
+    st.assume(z3.And(0 <= p, p < z3.Length(s)))
+    return Val(v.ty.elem, s[p])
+
+
+contract(
+    "ufo2ft.filters.propagateAnchors:_component_closest_to_origin",
+    props=["C15"],
+    params={"components": List(Ref("C15_AComponent")), "glyph_set": Ref("C15_GlyphSet")},
+    returns=Ref("C15_AComponent"),
+    models={"builtins.min": _min_member},
+    requires=["len(components) > 0"],
+    ensures={"one-of-them": "any(components[k] == result for k in range(len(components)))"},
+    canaries={"the-first": "result == components[0]"},
+)
+
+
+def _appendAnchor(ex, st, self, args, kwargs, node):
+    """glyph.appendAnchor({"name": n, "x": x, "y": y}) [ufoLib2 / defcon]: a NEW anchor object with these values is appended to the glyph's
+    anchor list (TRUSTED library behaviour)."""
+    (d,) = args
+    if not (d.is_py and isinstance(d.py, dict) and set(d.py) == {"name", "x", "y"}):
+        raise Unsupported("appendAnchor(...) with other than a literal {'name', 'x', 'y'} dict", node)
+    a = ex.new_object(st, "C15_Anchor")
+    for k in ("name", "x", "y"):
+        v = d.py[k]
+        ex.write_field(st, a, k, v if isinstance(v, Val) else Val.const(v), node)
+    cur = ex.read_field(st, self, "anchors")
+    t = lift(cur)
+    new = z3.Concat(t, z3.Unit(lift(a)))
+    k = z3.Int(fresh_name("ak"))
+    st.assume(z3.And(z3.Length(new) == z3.Length(t) + 1, new[z3.Length(t)] == lift(a), z3.ForAll([k], z3.Implies(z3.And(0 <= k, k < z3.Length(t)), new[k] == t[k]))))
+    ex.write_field(st, self, "anchors", Val(cur.ty, new), node)
+    return Val.const(None)
+
+
+_appendAnchor.modifies = ["C15_Glyph.anchors", "C15_Anchor.name", "C15_Anchor.x", "C15_Anchor.y"]
+CLASSES["C15_Glyph"].methods["appendAnchor"] = _appendAnchor
+cls("C15_Categories", fields={"mark": Set(STR)}, notes="OpenTypeCategories: only the set of mark glyph names is used")
+
+
+def _sorted_items(ex, st, args, kwargs, node):
+    """builtins.sorted(d.items()) for a dict with str keys: the (key, value) pairs of d, each key once (which order: by key — not needed
+    here)  [python builtin semantics, TRUSTED].  Modelled as a list of keys K with the same elements as d's key set; item i = (K[i], d[K[i]])."""
+    from pyvc import models
+    from pyvc.stmts import IterInfo
+
+    (v,) = args
+    info = models.carrier_info(v)
+    meta = getattr(info, "dict_items", None) if info is not None else None
+    if meta is None or meta[2] != "items" or kwargs:
+        raise Unsupported("sorted(): only sorted(<dict>.items()) is modelled here", node)
+    t, d, _ = meta
+    s = t.sort()
+    ks = z3.Const(fresh_name("sorted_keys"), z3.SeqSort(t.k.sort()))
+    x = z3.Const(fresh_name("sk"), t.k.sort())
+    i = z3.Int(fresh_name("si"))
+    st.assume(z3.ForAll([x], z3.Contains(ks, z3.Unit(x)) == z3.Select(s.dom(d), x)))
+    st.assume(z3.ForAll([i], z3.Implies(z3.And(0 <= i, i < z3.Length(ks)), z3.Select(s.dom(d), ks[i]))))
+    item = lambda j: Val(PYOBJ, None, (Val(t.k, ks[j]), Val(t.v, z3.Select(s.map(d), ks[j]))), True)  # noqa: E731
+    out = IterInfo("indexed", n=z3.Length(ks), item=item, seqval=Val(List(t.k), ks))
+    return Val(PYOBJ, None, ("iterinfo", out, None), True)
+
+
+_PGA = "ufo2ft.filters.propagateAnchors:_propagate_glyph_anchors"
+_GSG = "glyphSet.glyphs"
+_HAD = "any(a.name == probe for a in old(composite.anchors))"
+contract(
+    _PGA,
+    props=["C15"],
+    params={"glyphSet": Ref("C15_GlyphSet"), "composite": Ref("C15_Glyph"), "processed": Set(STR), "modified": Set(STR), "categories": Ref("C15_Categories")},
+    globals={"probe": _PROBE},
+    calls={"ufo2ft.filters.propagateAnchors:_get_anchor_data": "ufo2ft.filters.propagateAnchors:_get_anchor_data#any-components"},
+    models={"builtins.sorted": _sorted_items},
+    modifies=["processed", "modified", "C15_Glyph.anchors", "C15_Anchor.name", "C15_Anchor.x", "C15_Anchor.y"],
+    requires=[
+        f"all({_GSG}[n].name == n for n in glyphSet.names)",  # the glyph set maps every name to the glyph of that name
+        f"composite.name in {_GSG} and {_GSG}[composite.name] == composite",
+    ],
+    ensures={
+        "processed-grows": "all(n in processed for n in old(processed)) and composite.name in processed",
+        "modified-grows": "all(n in modified for n in old(modified))",
+    },
+    canaries={"never-adds": "len(composite.anchors) == len(old(composite.anchors))"},
+    locals={"base_components": List(Ref("C15_AComponent")), "mark_components": List(Ref("C15_AComponent")), "anchor_names": Set(STR), "to_add": _AD, "glyph": Ref("C15_Glyph")},
 )
